@@ -25,7 +25,7 @@ ASSUMPTIONS = [
     "threaded runs of the input/config enumeration use one fixed (default) schedule; schedules are enumerated only for the slice listed in coverage.counters (delay bound 1-2)",
     "allow_multiprocess / real OS processes are not exercised",
 ]
-BOUNDS = {"quick": "rows<=3 grid 0..4, 8 config cells, all stored subsets (<=8); schedule slice: 3 graphs, delay bound 1", "thorough": "rows<=3 grid 0..4, full product of 14 config cells x all stored subsets; schedule slice: all graphs bound 1, chain2/multi bound 2"}
+BOUNDS = {"quick": "rows<=3 grid 0..4, 8 config cells, all stored subsets (<=8); schedule slice: 3 graphs, delay bound 1", "thorough": "rows<=3 grid 0..4, 14 config cells x all stored subsets with six rotating (cell, subset) combinations per input; schedule slice: all graphs bound 1, chain2/multi bound 2"}
 
 RUN = "0"
 
@@ -290,10 +290,10 @@ def run_job(job):
                 continue
             # thorough: full product.  quick: every input meets 1 (cell, stored subset) combination, rotating
             # so that every (cell, subset) pair is met by many inputs (rotation offset = seed)
-            if tier == "quick":
-                combos = [(cells[(i + k + seed) % len(cells)], subs[(i // len(cells) + k + seed) % len(subs)]) for k in range(1)]
-            else:
-                combos = [(c, sb) for c in cells for sb in subs]
+            # the full product (cells x subsets) per input is ~10^6 pipeline runs and out of reach: quick gives every input one
+            # (cell, stored subset) combination, thorough six, rotating so that every pair is met by many inputs
+            ncomb = 1 if tier == "quick" else 6
+            combos = [(cells[(i + k + seed) % len(cells)], subs[(i // len(cells) + 3 * k + seed) % len(subs)]) for k in range(ncomb)]
             for cell, stored in combos:
                 res.evals += 1
                 nrows = sum(len(s["iv"]) for s in sources.values())
